@@ -26,11 +26,13 @@ TRUSTED = ['modelled not verified: CPython float arithmetic = IEEE-754 binary64 
            'rounded, builtin sum() of CPython 3.12 (Neumaier compensated; transliterated in FloatModel.sum_int/sum_float), '
            'libm pow(x, 1.0) = x, libm pow(x, 2.0) within one ulp of x*x (where it differs from x*x the value CPython '
            'computes is given to the model as a hint and accepted only within one ulp)',
-           'axioms (only under C12_float_sum_error_bound / C12_float_unit_roundoff; the C12_exact_* theorems are closed '
+           'axioms (only under the C12_float_* theorems; the C12_exact_* theorems are closed '
            'under the global context): Coq standard library FloatAxioms (Prim2SF_valid, SF2Prim_Prim2SF, Prim2SF_SF2Prim, '
-           'add_spec, abs_spec, eqb_spec: the specification of the primitive binary64 operations, used by Flocq '
-           'IEEE754.PrimFloat) and the axioms of Reals (ClassicalDedekindReals.sig_forall_dec, sig_not_dec, '
-           'Classical_Prop.classic, FunctionalExtensionality.functional_extensionality_dep); Flocq 4.1.0',
+           'add_spec, abs_spec, eqb_spec, div_spec, ltb_spec, of_uint63_spec: the specification of the primitive binary64 '
+           'operations, used by Flocq IEEE754.PrimFloat), the standard library axioms specifying the primitive 63-bit '
+           'integers (Uint63.add_spec, sub_spec, eqb_correct, eqb_refl, leb_spec, ltb_spec, lor_spec, lsl_spec, lsr_spec, '
+           'of_to_Z: float(count) goes through of_uint63) and the axioms of Reals (ClassicalDedekindReals.sig_forall_dec, '
+           'sig_not_dec, Classical_Prop.classic, FunctionalExtensionality.functional_extensionality_dep); Flocq 4.1.0',
            'modelled not verified: rs.ops.scan / rs.ops.map delivery (one state per item, seed deep-copied per key), '
            'RxPY synchronous delivery, multiplex/memory store keeping the scan state per key']
 ASSUMPTIONS = ['finite inputs; every int item and every int partial sum is below 2^53 in magnitude; no overflow of a '
@@ -575,16 +577,19 @@ CLAIM = {
             'floats, int/float mixing of the seeds 0.0, (0,0), (None,0,0), builtin sum of CPython 3.12, math.sqrt) are '
             'tied BIT-EXACTLY to rxsci by evaluating them in Coq on the inputs the operators were run on (plain, '
             'multiplexed, two keys, with key_mapper, reduce=False every emitted value and reduce=True). Of the '
-            'floating-point error bound only the one for `sum` is proved (C12_float_sum_error_bound, through Flocq: on '
-            'binary64 items without overflow of a running sum, |fl_sum - sum x_i| <= ((1+2^-53)^n - 1) * sum |x_i|, stated '
-            'on the very function the correspondence evaluates). NOT proved: the error bound (relative error '
-            'proportional to machine epsilon, count and conditioning) for mean, the Welford variance/stddev and the '
+            'floating-point error bounds those for `sum`, `mean` and `min`/`max` are proved (through Flocq, on the very '
+            'functions the correspondence evaluates, binary64 items, no overflow of a running sum or of the quotient): '
+            '|fl_sum - sum x_i| <= ((1+2^-53)^n - 1) * sum |x_i|; |fl_mean - sum x_i / n| <= ((1+2^-53)^(n+1) - 1) * sum |x_i| / n '
+            '+ 2^-1075 at completion and for every streaming value against its prefix (float(count) exact below 2^53); '
+            'min/max emit one of the items, bounding every item (no rounding). NOT proved: the error bound (relative error '
+            'proportional to machine epsilon, count and conditioning) for the Welford variance/stddev and the '
             'two-pass formal variance/stddev - it is TESTED by the oracle against exact rational arithmetic on every '
             'prefix with the explicit bound given in `rule`.',
     'note': 'Trusted: Coq kernel+VM incl. primitive 63-bit integers and binary64 floats (evaluation only; no '
-            'C12_exact_* theorem depends on them). C12_float_sum_error_bound and C12_float_unit_roundoff depend on '
+            'C12_exact_* theorem depends on them). The C12_float_* theorems depend on '
             'standard-library axioms: FloatAxioms.{Prim2SF_valid, SF2Prim_Prim2SF, Prim2SF_SF2Prim, add_spec, abs_spec, '
-            'eqb_spec} and the Reals axioms ClassicalDedekindReals.sig_forall_dec, ClassicalDedekindReals.sig_not_dec, '
+            'eqb_spec, div_spec, ltb_spec, of_uint63_spec}, Uint63.{add_spec, sub_spec, eqb_correct, eqb_refl, leb_spec, '
+            'ltb_spec, lor_spec, lsl_spec, lsr_spec, of_to_Z} and the Reals axioms ClassicalDedekindReals.sig_forall_dec, ClassicalDedekindReals.sig_not_dec, '
             'Classical_Prop.classic, FunctionalExtensionality.functional_extensionality_dep (via Flocq 4.1.0); hand-written generic model of rxsci/math/*.py tied by correspondence only; CPython '
             'float semantics, float(int) below 2^53, builtin sum (Neumaier) and math.sqrt are modelled; libm pow(x,2.0) '
             'is modelled as "x*x or, where CPython says otherwise, the supplied value within one ulp of x*x". '
